@@ -182,7 +182,8 @@ func runC09(t *testing.T, sc *Scenario) Result {
 	var base, after map[string]int
 	var lBase, lAfter []string
 	var fdBase, fdAfter map[string]bool
-	var seqOpen []string
+	var seqOpen, dialOpen []string
+	dialled := 0
 	custom := sc.ParamBool("history")
 	obs, _ := runHostileSeq(t, sc, &res, custom, func(w *World) {
 		base, _ = census()
@@ -195,6 +196,13 @@ func runC09(t *testing.T, sc *Scenario) Result {
 		for _, s := range w.Net.Streams() {
 			if !s.Server().IsClosed() && strings.HasPrefix(s.Client().LocalAddr().String(), "10.") {
 				seqOpen = append(seqOpen, s.Client().LocalAddr().String()+"->"+s.Server().LocalAddr().String())
+			}
+			if s.Server().LocalAddr().String() == ftpSinkAddr {
+				dialled++
+			}
+			// connections the service itself opened on a client's behalf (ftp active mode)
+			if s.Server().LocalAddr().String() == ftpSinkAddr && !s.Client().IsClosed() {
+				dialOpen = append(dialOpen, s.Client().LocalAddr().String()+"->"+ftpSinkAddr)
 			}
 		}
 	})
@@ -214,6 +222,11 @@ func runC09(t *testing.T, sc *Scenario) Result {
 		res.Violate("connection-not-closed", site, fmt.Sprintf("%d connection(s) still open on the server side 10 simulated minutes after the client was gone or silent: %v", len(seqOpen), seqOpen[:min(len(seqOpen), 4)]))
 		return res
 	}
+	if len(dialOpen) > 0 {
+		res.Violate("dialled-connection-not-closed", site, fmt.Sprintf("%d data connection(s) the service opened to the client's address (active mode) are still open 10 simulated minutes after the client was gone: %v", len(dialOpen), dialOpen[:min(len(dialOpen), 4)]))
+		return res
+	}
+	res.probe("active-mode-connections-dialled", dialled)
 	// (c) goroutines
 	var keys []string
 	for k := range after {
